@@ -1,17 +1,14 @@
 #!/bin/sh
-# tools_confirm_mutant.sh <id> : confirm a sub-agent's seeded change in its own scratch worktree:
+# tools_confirm_mutant.sh <worktree> <outdir> [cargo-features] : confirm a sub-agent's seeded change in its own scratch worktree:
 #   patch applies to a clean tree, crate builds, unedited test-suite passes, demo fails with / passes without the change.
-id=$1
-wt=/tmp/mut/$id
-out=/tmp/mut/${id}_out
+wt=$1; out=$2; feat=$3
 cd $wt || exit 3
-git checkout -q -- . && git clean -fdq tests/demo.rs 2>/dev/null
+git checkout -q -- . ; rm -f tests/demo.rs
 git apply --check $out/patch.diff || { echo "PATCH-DOES-NOT-APPLY"; exit 1; }
 git apply $out/patch.diff
-echo "== suite with change"; cargo test --offline 2>&1 | grep -E "^test result|FAILED|panicked" | head -8
+echo "suite with change: $(cargo test --offline $feat 2>&1 | grep -E '^test result' | tr '\n' ' ' | cut -c1-260)"
 cp $out/demo.rs tests/demo.rs
-echo "== demo with change (must fail)"; cargo test --offline --test demo 2>&1 | grep -E "^test result|FAILED|panicked|error" | head -6
+echo "demo with change (must fail): $(cargo test --offline $feat --test demo 2>&1 | grep -E '^test result')"
 git checkout -q -- src
-echo "== demo without change (must pass)"; cargo test --offline --test demo 2>&1 | grep -E "^test result|FAILED|panicked|error" | head -6
+echo "demo without change (must pass): $(cargo test --offline $feat --test demo 2>&1 | grep -E '^test result')"
 rm -f tests/demo.rs
-git status --short | head -5
